@@ -152,7 +152,8 @@ def _exporter(ctx, model):
     if hm is None or hm.kind != "func":
         raise AnalysisError("_map_multi_children_op not found")
     try:
-        fwit = _judge_fold(model.inlined(hm.node), hm.owner.module.tree)
+        fwit = _judge_fold(model.inlined(hm.node), hm.owner.module.tree,
+                           hm.owner.node)
     except AnalysisError as e:
         fwit = None
         ctx.extra["judge_unavailable:_map_multi_children_op"] = str(e)
@@ -166,9 +167,10 @@ def _exporter(ctx, model):
     try:
         fold = _analyse_fold(hm, model.inlined(hm.node))
     except AnalysisError:
-        if fwit is None or fwit:
+        if fwit is None:
             raise
-        fold = "in-order"
+        # (shape not recognised; the interpretation has decided either way)
+        fold = "in-order" if not fwit else "loses or reorders operands"
     if fwit is not None and not fwit:
         fold = "in-order"       # (shape not recognised; the interpretation decides)
     ctx.ob("E/exporter/_map_multi_children_op/order", fold == "in-order",
@@ -320,7 +322,7 @@ def model_resolve(model, mp, n):
     return resolve_handler(model, mp, n)
 
 
-def _judge_fold(fn, module_tree):
+def _judge_fold(fn, module_tree, class_node=None):
     """interpretive judge (pv/absint.py).  -> witnesses"""
     from ..absint import Interp, Opaque, Raised, StepBound, module_env
 
@@ -366,13 +368,32 @@ def _judge_fold(fn, module_tree):
         return r
     glob = module_env(module_tree, {"ast": Opaque("ast")})
     wit = []
-    for n in range(1, 8):
+    # lengths 1..7, and the lengths around every size the code itself names
+    # (a threshold at which it switches strategy) and around its double
+    sizes = set(range(1, 8))
+    consts = {}
+    for st in (class_node.body if class_node is not None else []):
+        tg, val = None, None
+        if isinstance(st, ast.Assign) and len(st.targets) == 1:
+            tg, val = st.targets[0], st.value
+        elif isinstance(st, ast.AnnAssign):
+            tg, val = st.target, st.value
+        if isinstance(tg, ast.Name) and isinstance(val, ast.Constant):
+            consts[tg.id] = val
+    for c in list(ast.walk(fn)) + list(consts.values()):
+        if isinstance(c, ast.Constant) and isinstance(c.value, int) and \
+                not isinstance(c.value, bool) and 4 <= c.value <= 140:
+            for b in (c.value, 2 * c.value):
+                sizes |= {b - 1, b, b + 1, b + 2, b + 3}
+    for n in sorted(sizes):
         kids = tuple(("child", i) for i in range(n))
         mp = Mp()
 
         def attrs(it, node, base, attr, _mp=mp):
             if base is _mp and attr == "rec":
                 return lambda c, *a, **k: ("m", c[1])
+            if base is _mp and attr in consts:
+                return consts[attr].value
             if isinstance(base, Opaque) and base.what == "ast" and attr == "BinOp":
                 return lambda *a, **k: Bin(
                     *(list(a) + [k[x] for x in ("left", "op", "right")
@@ -380,7 +401,7 @@ def _judge_fold(fn, module_tree):
                     k.get("left", a[0] if a else None), k.get("op"),
                     k.get("right"))
             return Opaque(ast.unparse(node))
-        it = Interp(attrs=attrs, globals_=glob, max_steps=20000,
+        it = Interp(attrs=attrs, globals_=glob, max_steps=400000,
                     calls={"type": type_, "isinstance": isinst})
         try:
             got = it.call_function(fn, [mp, kids, OpInst("OP")], dict(glob))
@@ -393,9 +414,10 @@ def _judge_fold(fn, module_tree):
         ops = []
         lv = leaves(got, ops)
         if lv != [("m", i) for i in range(n)]:
+            shown = [x[1] if isinstance(x, tuple) else x for x in lv]
             wit.append(f"{n} children: operands reach the ast.BinOp nest as "
-                       f"{[x[1] if isinstance(x, tuple) else x for x in lv]}, "
-                       f"not 0..{n - 1} in order")
+                       f"{shown if n < 12 else f'{len(shown)} operands, ending in {shown[-3:]}'}"
+                       f", not 0..{n - 1} in order")
         elif any(not (isinstance(o, OpInst) and o.name == "OP") for o in ops):
             wit.append(f"{n} children: an ast.BinOp is built with another "
                        "operator than the one handed in")
@@ -720,6 +742,14 @@ def _compile(ctx, model):
                 and kws.get("include_lookups") == "False"
                 and kws.get("include_calls") in ("False", "'descend_args'"))
             ok = ok and kws.get("include_cses") in (None, "False")
+    # the argument list of the generated code *is* what the dependency mapper
+    # reports with the composite kinds off: a variable it passes over (one
+    # that occurs only in a keyword argument, say) is missing from the
+    # signature.  C09's rule instances on DependencyMapper are premises here.
+    from .c09 import DEP, _check_dep_coverage, _check_flag_table
+    dm_ = model.cls(f"{DEP}:DependencyMapper")
+    _check_flag_table(ctx, model, dm_)
+    _check_dep_coverage(ctx, model, dm_)
     ctx.ob("T/compile/free-variables-are-variables", ok, loc,
            "free variables come from DependencyMapper(composite_leaves=False)"
            if ok else
@@ -982,6 +1012,57 @@ def _source_vs_python(ctx, model):
                        f"{show(t)} compiles to the source '{s}', which Python "
                        f"groups as {show(back)}", {"source": s})
     ctx.floor("python-source nestings", n, 400)
+    # powers with the literal exponents 0, 1, 2 (a handler may write them as
+    # 1, u, u*u): whichever spelling, the base keeps the parentheses it needs
+    # as an operand of that spelling, and the whole those of its place -- for
+    # every class of base, under every parent and position
+    def small_powers(t):
+        if not isinstance(t, tuple) or not t:
+            return t
+        if isinstance(t[0], str):
+            rest = tuple(small_powers(x) if isinstance(x, tuple) else x
+                         for x in t[1:])
+            if t[0] == "Power" and rest[1] in (("Const", 0), ("Const", 1),
+                                               ("Const", 2)):
+                e = rest[1][1]
+                return ("Const", 1) if e == 0 else rest[0] if e == 1 else (
+                    "Product", (rest[0], rest[0]))
+            return (t[0],) + rest
+        return tuple(small_powers(x) if isinstance(x, tuple) else x for x in t)
+    n_pw = 0
+    for e_ in (2, 1, 0):
+        for P, ar in PY_KINDS.items():
+            for pos in range(ar):
+                if P in ("Call", "Subscript", "Lookup") and pos == 0 and e_ == 0:
+                    continue
+                for C in list(PY_KINDS) + ["Var"]:
+                    vs = iter(V)
+                    kids = [next(vs) for _ in range(ar)]
+                    base = leaves[C] if C in leaves else mk(
+                        C, [next(vs) for _ in range(PY_KINDS[C])])
+                    kids[pos] = ("Power", base, ("Const", e_))
+                    t = mk(P, kids)
+                    key = f"T/py-source/{P}.{posname(P, pos)}<-{C}**{e_}"
+                    try:
+                        s = printer.print(t, 0)
+                        back = py_tree(s)
+                    except Unsupported as e:
+                        raise AnalysisError(f"CompileMapper model: {e}")
+                    except NotShared as e:
+                        ctx.ob(key, False, loc, f"{show(t)} compiles to the "
+                               f"source '{s}', which Python does not read back "
+                               f"({e})", {"source": s})
+                        continue
+                    n_pw += 1
+                    ok = assoc_flatten(small_powers(back)) == \
+                        assoc_flatten(small_powers(t))
+                    if not ok or e_ == 2 and C in ("FloorDiv", "Remainder", "Sum"):
+                        ctx.ob(key, ok, loc,
+                               f"'{s}' means the same to Python" if ok else
+                               f"{show(t)} compiles to the source '{s}', which "
+                               f"Python groups as {show(back)}", {"source": s})
+    ctx.ob("T/py-source/small-literal-exponents", True, loc,
+           f"{n_pw} nestings of u**0, u**1, u**2 printed and read back")
     # the exact-quotient node (pymbolic.rational.Rational) is written like a
     # quotient; as an operand it needs whatever parentheses a quotient needs
     if "Rational" in table.templates:
